@@ -1,0 +1,91 @@
+//go:build verif
+
+// Machine-checked contracts (comment-only; compiled only under the build tag "verif").
+package util
+
+//@ define sumReplicas(s) = sum(k, len(s), ite(s[k] == nil, 0, *s[k].Spec.Replicas))
+//@ define sumAvailable(s) = sum(k, len(s), ite(s[k] == nil, 0, s[k].Status.AvailableReplicas))
+//@ define wfRSs(s) = forall k :: 0 <= k && k < len(s) && s[k] != nil ==> s[k].Spec.Replicas != nil
+//@ define iosp_ok(p) = p == nil || scaledOk(p.Type, p.StrVal)
+//@ define iosp_scaled(p, total, up) = ite(p == nil, 0, scaled(p.Type, p.IntVal, p.StrVal, total, up))
+//@ define fenceSurge(ms, mu, r) = ite(iosp_ok(ms) && iosp_ok(mu), iosp_scaled(ms, r, true), 0)
+//@ define fenceUnavailRaw(ms, mu, r) = iosp_scaled(mu, r, false)
+//@ define fenceUnavail(ms, mu, r) = ite(iosp_ok(ms) && iosp_ok(mu), ite(iosp_scaled(ms, r, true) == 0 && iosp_scaled(mu, r, false) == 0, 1, iosp_scaled(mu, r, false)), 0)
+//@ define limitRaw(p, r) = imax(imin(scaled(p.Type, p.IntVal, p.StrVal, r, true), r), 0)
+//@ define rsLimit(p, r) = ite(r > 1 && p.Type == 1 && p.StrVal != "100%", imin(limitRaw(p, r), r - 1), limitRaw(p, r))
+//@ define surgeOf(d, st) = ite(st == nil || st.RollingUpdate == nil, 0, fenceSurge(st.RollingUpdate.MaxSurge, st.RollingUpdate.MaxUnavailable, *d.Spec.Replicas))
+//@ define unavailOf(d, st) = ite(st == nil || st.RollingUpdate == nil || *d.Spec.Replicas == 0, 0, imin(fenceUnavail(st.RollingUpdate.MaxSurge, st.RollingUpdate.MaxUnavailable, *d.Spec.Replicas), *d.Spec.Replicas))
+
+//@ func GetReplicaCountForReplicaSets
+//@ props C17
+//@ requires wfRSs(replicaSets)
+//@ ensures result == sumReplicas(replicaSets)
+//@ loop 1 invariant -1 <= rangeindex && rangeindex < len(replicaSets)
+//@ loop 1 invariant totalReplicas == sum(k, rangeindex + 1, ite(replicaSets[k] == nil, 0, *replicaSets[k].Spec.Replicas))
+//@ pure
+
+//@ func GetAvailableReplicaCountForReplicaSets
+//@ props C17
+//@ ensures result == sumAvailable(replicaSets)
+//@ loop 1 invariant -1 <= rangeindex && rangeindex < len(replicaSets)
+//@ loop 1 invariant totalAvailableReplicas == sum(k, rangeindex + 1, ite(replicaSets[k] == nil, 0, replicaSets[k].Status.AvailableReplicas))
+//@ pure
+
+//@ func ResolveFenceposts
+//@ props C17
+//@ ensures surge: result2 == nil ==> result0 == fenceSurge(maxSurge, maxUnavailable, desired)
+//@ ensures unavailable: result2 == nil ==> result1 == fenceUnavail(maxSurge, maxUnavailable, desired)
+//@ ensures err: result2 != nil ==> result0 == 0 && result1 == 0
+//@ ensures ok: (result2 == nil) == (iosp_ok(maxSurge) && iosp_ok(maxUnavailable))
+//@ pure
+
+//@ func MaxSurge
+//@ props C17
+//@ requires deployment != nil && deployment.Spec.Replicas != nil
+//@ ensures result == surgeOf(deployment, strategy)
+//@ pure
+
+//@ func MaxUnavailable
+//@ props C17
+//@ requires deployment != nil && deployment.Spec.Replicas != nil
+//@ ensures result == unavailOf(deployment, strategy)
+//@ pure
+
+//@ func MinAvailable
+//@ props C17
+//@ requires deployment != nil && deployment.Spec.Replicas != nil
+//@ ensures result == ite(strategy == nil || strategy.RollingUpdate == nil, 0, *deployment.Spec.Replicas - unavailOf(deployment, strategy))
+//@ pure
+
+//@ func NewRSReplicasLimit
+//@ props C17 C01
+//@ requires deployment != nil && deployment.Spec.Replicas != nil
+//@ ensures spec: result == rsLimit(partition, *deployment.Spec.Replicas)
+//@ ensures bounds: 0 <= result && result <= imax(*deployment.Spec.Replicas, 0)
+//@ ensures keeps_one_old: *deployment.Spec.Replicas > 1 && partition.Type == 1 && partition.StrVal != "100%" ==> result <= *deployment.Spec.Replicas - 1
+//@ pure
+
+//@ func NewRSNewReplicas
+//@ props C17
+//@ requires deployment != nil && deployment.Spec.Replicas != nil && newRS != nil && newRS.Spec.Replicas != nil && strategy != nil
+//@ requires wfRSs(allRSs)
+//@ requires sane: *deployment.Spec.Replicas >= 0 && *newRS.Spec.Replicas >= 0 && *newRS.Spec.Replicas <= *deployment.Spec.Replicas
+//@ requires surge_nonneg: surgeOf(deployment, strategy) >= 0
+//@ requires old_hold_reserve: sumReplicas(allRSs) - *newRS.Spec.Replicas >= *deployment.Spec.Replicas - imax(rsLimit(strategy.Partition, *deployment.Spec.Replicas), *newRS.Spec.Replicas)
+//@ ensures no_error: result1 == nil
+//@ ensures never_down: result0 >= *newRS.Spec.Replicas
+//@ ensures within_partition: result0 <= imax(*newRS.Spec.Replicas, rsLimit(strategy.Partition, *deployment.Spec.Replicas))
+//@ ensures within_surge: (result0 - *newRS.Spec.Replicas) + sumReplicas(allRSs) <= imax(sumReplicas(allRSs), *deployment.Spec.Replicas + surgeOf(deployment, strategy))
+//@ ensures converges: rsLimit(strategy.Partition, *deployment.Spec.Replicas) == *deployment.Spec.Replicas && sumReplicas(allRSs) == *newRS.Spec.Replicas ==> result0 == *deployment.Spec.Replicas
+//@ pure
+
+//@ func FindNewReplicaSet
+//@ props C17
+//@ requires deployment != nil
+//@ requires forall k :: 0 <= k && k < len(rsList) ==> rsList[k] != nil
+//@ ensures only_permutes_its_argument: unchangedOutside(rsList)
+
+//@ func EqualIgnoreHash
+//@ props C17 C08
+//@ requires template1 != nil && template2 != nil
+//@ pure
